@@ -404,6 +404,10 @@ Not a finding (harness corrected instead): (1) a program form entered early that
   rejected steps are counted by messages numbered 1; (4) an ill-typed re-definition of a function the session already has is
   answered by the dialogue `Redefine? (y/n)` (fintYesOrNo), not by a rejection -> not offered (Repl.tla Offered); at end of input
   that dialogue loops forever (getchar() == EOF is not handled) -- outside this property, not recorded.
+Later the same day the lead committed the three repairs to /repo (c1de492 undo step, a360ba4 undo no free, 8531fab echo wrap):
+  the corresponding findings are `fixed` in known_findings.jsonl; quick exits 0 with VERIF_SEED = default, 7, 99, 4242 (53-75 s);
+  the only KNOWN-FINDING left is the leak of the second meaning after a rejected re-declaration (shape redeclares-defined-name; it
+  shows when a later form uses the variable inside an if-branch, so seeds whose programs have no such use print no line).
 TLC -coverage cannot be used with Repl.tla (the cost-model construction does not terminate on AldorSem's nested operators);
   non-vacuity is shown by the exported history items per kind (evidence: history_items).
 """
